@@ -215,6 +215,8 @@ var c01Texts = []string{
 	"a: {? [1,2] : v}\n", "--- \na: 1\n---\nb: 2\n", "a:\t1\n", "a: !!binary aGVsbG8=\n", "a: 0x1F\nb: 0o17\nc: 1e3\nd: .inf\n",
 	"a: ~\nb: null\nc: Null\nd:\n", "a: [[], {}, [[]], [{}]]\n", "[1,2,3]\n", "just a string\n", "a: 'x\n", "{\"a\": [1, 2.5, \"x\", null, true], \"b\": {}}",
 	"{\"a\": 1", "a: 18446744073709551615\n", "a: -9223372036854775808\n", "? a\n: 1\n", "a: |\n  multi\n  line\nb: >\n  folded\n  text\n",
+	// a document that is null as a whole is a document: the decoders accept it (as "nothing"), so does the loader
+	"---\n", "~\n", "null\n", "--- ~\n", "# only a comment\n---\n", "null", " null ", "--- null\n...\n",
 	"\x00\x01\x02", "a: \xff\xfe\n", "a: b: c\n", "- a\n- b\n", "a: [1, 2\n", "a: 2001-12-14\nb: [2002-01-01, x]\n", "a: {b: {c: {d: [1, {e: null}]}}}\n",
 }
 
@@ -233,6 +235,9 @@ func c01Text(t string, isJSON bool) Case {
 			cerr = yaml.NewDecoder(strings.NewReader(t)).Decode(&ctl)
 		}
 	})
+	if ctl == nil { // a document that is null as a whole: the decoders reset the map — a mapping without entries
+		ctl = map[string]any{}
+	}
 	var d dom.ContainerBuilder
 	var err error
 	var fail []string
